@@ -367,3 +367,27 @@ CASES["C09"] = [
      "                    if size_remaining % schedule_bound != 0:\n                        to_tile = False\n",
      "                    if not size_remaining % schedule_bound == 0:\n                        to_tile = False\n", []),
 ]
+
+CASTSF = "snaxc/transforms/realize_memref_casts.py"
+SPACEF = "snaxc/transforms/set_memory_space.py"
+
+CASES["C12"] = [
+    ("copy-in inserted after the use", "mutant", CASTSF, "                copy_op = memref.CopyOp(source_op.source, op.dest)\n                rewriter.insert_op(copy_op, InsertPoint.before(use_op))", "                copy_op = memref.CopyOp(source_op.source, op.dest)\n                rewriter.insert_op(copy_op, InsertPoint.after(use_op))", ["C12.copy-in"]),
+    ("copy-out with swapped operands", "mutant", CASTSF, "copy_op = memref.CopyOp(op.dest, source_op.source)", "copy_op = memref.CopyOp(source_op.source, op.dest)", ["C12.copy-out", "C12.copy-in"]),
+    ("copy-out searched forwards", "mutant", CASTSF, "for use_op in op.parent.walk(reverse=True):", "for use_op in op.parent.walk(reverse=False):", ["C12.copy-out"]),
+    ("copy-out: output = not an input", "mutant", CASTSF, "            if isinstance(use_op, linalg.GenericOp):\n                is_output = op.results[0] in use_op.outputs", "            if isinstance(use_op, linalg.GenericOp):\n                is_output = op.results[0] not in use_op.inputs", ["C12.copy-out"]),
+    ("copy-in: streaming regions always read", "mutant", CASTSF, "            elif isinstance(use_op, dart.StreamingRegionOpBase):\n                is_input = op.results[0] in use_op.inputs", "            elif isinstance(use_op, dart.StreamingRegionOpBase):\n                is_input = op.results[0] not in use_op.outputs", ["C12.copy-in"]),
+    ("copy-out: break removed", "mutant", CASTSF, "                rewriter.insert_op(copy_op, InsertPoint.after(use_op))\n                break\n", "                rewriter.insert_op(copy_op, InsertPoint.after(use_op))\n", ["C12.copy-out"]),
+    ("chain: layout casts not followed in the pattern", "mutant", CASTSF, "        while isinstance(source_op.source, OpResult) and isinstance(\n            source_op.source.op, MemorySpaceCastOp | LayoutCast\n        ):", "        while isinstance(source_op.source, OpResult) and isinstance(\n            source_op.source.op, MemorySpaceCastOp\n        ):", ["C12.chain"]),
+    ("l1: operands in L1 selected", "mutant", SPACEF, "if isinstance(memref_type := x.type, builtin.MemRefType) and memref_type.memory_space != L1.attribute", "if isinstance(memref_type := x.type, builtin.MemRefType) and memref_type.memory_space == L1.attribute", ["C12.l1"]),
+    ("l1: any cast reused", "mutant", SPACEF, "                    and use_type.memory_space == L1.attribute\n", "", ["C12.l1"]),
+    ("boundary: every memref gets L3", "mutant", SPACEF, "                if isinstance(t.memory_space, builtin.NoneAttr):\n                    return builtin.MemRefType(", "                if True:\n                    return builtin.MemRefType(", ["C12.boundary"]),
+    ("boundary: returns cast to own space", "mutant", SPACEF, "                    func_return_output_type,\n                    func_op_output.memory_space,\n", "                    func_return_output_type,\n                    func_return_output_type.memory_space,\n", ["C12.boundary"]),
+    ("const: density test dropped", "mutant", CASTSF, "    if not dest_layout.data.is_dense():\n        warnings.warn(\"failed to transform constant op, dest layout is not contiguous\")\n        return None\n", "", ["C12.const-guards"]),
+    ("const: None result ignored", "mutant", CASTSF, "        new_constant = transform_constant(const_source.value, op.dest.type.layout)\n        if new_constant is None:\n            # failed to transform\n            return\n", "        new_constant = transform_constant(const_source.value, op.dest.type.layout)\n        assert new_constant is not None or True\n", ["C12.const-guards", "internal"]),
+    ("alloc: non-cast users allowed", "mutant", CASTSF, "        if not all(isinstance(use.operation, LayoutCast | MemorySpaceCastOp) for use in alloc_op.memref.uses):\n            return\n", "", ["C12.const-guards"]),
+    ("subview global: all uses are subviews", "mutant", CASTSF, "        if subview.source.uses.get_length() != 1:\n            return\n", "        if not all(isinstance(u.operation, SubviewOp) for u in subview.source.uses):\n            return\n", ["C12.const-guards"]),
+    ("reintroduce dangling global (no other-reference guard)", "mutant", CASTSF, "@revert:0c0bc7e", "", ["C12.const-guards"]),
+    ("terminator guard dropped for constants", "mutant", CASTSF, "        if any(use.operation.has_trait(IsTerminator) for use in const_source.result.uses):\n            return\n", "", ["C12.const-guards"]),
+    ("twin: copy-out classification via local", "twin", CASTSF, "            if isinstance(use_op, linalg.GenericOp):\n                is_output = op.results[0] in use_op.outputs", "            if isinstance(use_op, linalg.GenericOp):\n                is_output = op.dest in use_op.outputs", []),
+]
